@@ -18,6 +18,25 @@ MUTANTS = [
     ("status_signal_offset", "process.posix.c", "WTERMSIG(status) + 128", "WTERMSIG(status) + 127", "parse_status", "C01/parse_status.signal_plus_128"),
     ("status_exit_mask", "process.posix.c", "WIFEXITED(status) ? WEXITSTATUS(status)", "WIFEXITED(status) ? (WEXITSTATUS(status) & 0x7f)", "parse_status", "C01/parse_status.exit_code_exact"),
     ("options_drop_handle_check", "options.c", "    ASSERT_EINVAL(redirect->handle);\n", "", "parse_options", "C13/parse_options.conflicts_rejected"),
+    ("path_direction_swapped", "redirect.posix.c", "stream == REPROC_STREAM_IN ? O_RDONLY : O_WRONLY", "stream == REPROC_STREAM_IN ? O_WRONLY : O_RDONLY", "redirect_init", "C10/redirect_init.path_opened_in_right_direction"),
+    ("pipe_nonblocking_wrong_end", "redirect.c", "r = pipe_nonblocking(stream == REPROC_STREAM_IN ? pipe[1] : pipe[0],", "r = pipe_nonblocking(stream == REPROC_STREAM_IN ? pipe[0] : pipe[1],", "redirect_init", "C17/redirect_init.pipe_parent_end_mode_child_end_blocking"),
+    ("pipe_ends_swapped_for_stdin", "redirect.c", "*parent = stream == REPROC_STREAM_IN ? pipe[1] : pipe[0];", "*parent = stream == REPROC_STREAM_ERR ? pipe[1] : pipe[0];", "redirect_init", "C10/redirect_init.pipe_parent_holds_other_end"),
+    ("destroy_closes_user_handle", "redirect.c", "    case REPROC_REDIRECT_PATH:\n      handle_destroy(child);", "    case REPROC_REDIRECT_PATH:\n    case REPROC_REDIRECT_HANDLE:\n      handle_destroy(child);", "redirect_destroy", "C05/redirect_destroy.never_closes_user_or_parent_streams"),
+    ("path_without_cloexec", "redirect.posix.c", "mode | O_CREAT | O_CLOEXEC", "mode | O_CREAT", "redirect_init", "C11/redirect_init.created_descriptors_close_on_exec"),
+    ("pipe_init_leaks_on_cloexec_failure", "pipe.posix.c", "finish:\n  pipe_destroy(pair[0]);\n  pipe_destroy(pair[1]);", "finish:\n  pipe_destroy(pair[0]);", "pipe_init", "C05/pipe_init.failure_leaves_no_descriptor"),
+    ("pipe_read_eof_as_zero", "pipe.posix.c", "    return -EPIPE;\n  }\n\n  return r < 0 ? -errno : r;", "    return 0;\n  }\n\n  return r < 0 ? -errno : r;", "pipe_read", "C02/pipe_read.eof_is_epipe"),
+    ("wait_keeps_exit_pipe", "reproc.c", "  process->pipe.exit = pipe_destroy(process->pipe.exit);\n\n  return process->status = r;", "  return process->status = r;", "reproc_wait", "C01/reproc_wait.status_is_exact_and_reaped_once"),
+    ("wait_status_not_cached", "reproc.c", "  return process->status = r;", "  return r;", "reproc_wait", "C01/reproc_wait.status_is_exact_and_reaped_once"),
+    ("wait_deadline_as_zero", "reproc.c", "    timeout = expiry(REPROC_INFINITE, process->deadline);\n", "    timeout = 0;\n", "reproc_wait", "C08/reproc_wait.until_deadline_waits_exactly_until_deadline"),
+    ("terminate_after_exit_signals", "reproc.c", "  if (process->status >= 0) {\n    return 0;\n  }\n\n  return process_terminate(process->handle);", "  return process_terminate(process->handle);", "reproc_terminate", "C06/reproc_terminate.after_exit_sends_nothing"),
+    ("stop_kill_and_terminate_swapped", "reproc.c", "      case REPROC_STOP_TERMINATE:\n        r = reproc_terminate(process);", "      case REPROC_STOP_TERMINATE:\n        r = reproc_kill(process);", "reproc_stop", "C07+C15/stop.signal_is_next_planned_step"),
+    ("stop_ignores_terminate_failure", "reproc.c", "    if (r < 0) {\n      break;\n    }\n\n    r = reproc_wait(process, actions[i].timeout);", "    r = reproc_wait(process, actions[i].timeout);", "reproc_stop", "C07/reproc_stop.otherwise_error_of_failed_action"),
+    ("stop_continues_after_status", "reproc.c", "    if (r != REPROC_ETIMEDOUT) {\n      break;\n    }\n  }\n\n  return r;", "    if (r < 0 && r != REPROC_ETIMEDOUT) {\n      break;\n    }\n  }\n\n  return r;", "reproc_stop", "C01+C07/reproc_stop.status_iff_reaped"),
+    ("stop_default_policy_kill", "options.c", "stop.second.action = REPROC_STOP_TERMINATE;", "stop.second.action = REPROC_STOP_KILL;", "reproc_stop", "C07+C15/stop.signal_is_next_planned_step"),
+    ("read_wrong_stream", "reproc.c", "pipe_type *pipe = stream == REPROC_STREAM_OUT ? &process->pipe.out\n                                                : &process->pipe.err;", "pipe_type *pipe = stream == REPROC_STREAM_OUT ? &process->pipe.err\n                                                : &process->pipe.out;", "reproc_read", "C02/reproc_read.one_read_on_that_stream"),
+    ("read_epipe_not_sticky", "reproc.c", "  if (r == REPROC_EPIPE) {\n    *pipe = pipe_destroy(*pipe);\n  }", "  if (r == REPROC_EPIPE) {\n    pipe_destroy(*pipe);\n  }", "reproc_read", "C02/reproc_read.epipe_is_sticky"),
+    ("close_not_idempotent", "reproc.c", "      process->pipe.in = pipe_destroy(process->pipe.in);\n      return 0;", "      pipe_destroy(process->pipe.in);\n      return 0;", "reproc_close", "C02+C14/reproc_close.closes_exactly_that_stream"),
+    ("now_wrong_unit", "clock.posix.c", "timespec.tv_nsec / 1000000", "timespec.tv_nsec / 100000", "now", "C08/now.is_os_clock_in_ms"),
     ("options_default_err_pipe", "options.c", "stream == REPROC_STREAM_ERR ? REPROC_REDIRECT_PARENT", "stream == REPROC_STREAM_IN ? REPROC_REDIRECT_PARENT", "parse_options", "C13+C10/parse_options.effective_stderr"),
 ]
 
